@@ -749,6 +749,52 @@ pub fn c12(cx: &mut Ctx) {
             if sched < 2 { cx.op("canproceed"); cx.op("proceed"); } else { cx.op("cended"); }
         }
     }
+    // (6c) trailer fields named like framing fields, and reads that go on after a read failed (whatever they
+    // return, they return)
+    for body in ["3\r\nabc\r\n0\r\nContent-Length: 5\r\n\r\n", "0\r\nTransfer-Encoding: chunked\r\nX: y\r\n\r\n", "0\r\ncontent-length : 1\r\n\r\n", "1\r\naX\r\n\r\n0\r\n\r\n", "zz\r\n\r\n\r\n"] {
+        for api in 0..2 {
+            cx.case("afterr");
+            let w = body.as_bytes();
+            if api == 0 {
+                if !super::bodyr::to_recv_body(cx, "GET", heads[0]) { continue; }
+            } else {
+                if cx.rec.new_call("nobody", "GET HTTP/1.1 http://a.test/p 0") != "ok" { continue; }
+                cx.op("cwrite 4096"); cx.op("cinto");
+                cx.op(&format!("cresp {}", hx(heads[0])));
+                if cx.op("cbody") != "state callRecvBody" { continue; }
+            }
+            let rd = if api == 0 { "bread" } else { "cread" };
+            let mut off = 0;
+            // piecewise: each line on its own, going on whatever came back
+            let mut cuts: Vec<usize> = w.iter().enumerate().filter(|(_, b)| **b == b'\n').map(|(i, _)| i + 1).collect();
+            cuts.push(w.len());
+            for upto in cuts {
+                for _ in 0..2 {
+                    let res = cx.op(&format!("{} {} 100", rd, hx(&w[off.min(upto)..upto])));
+                    let p: Vec<&str> = res.split(' ').collect();
+                    if p[0] == "bytes" { let i: usize = p[1].parse().unwrap_or(0); off += i; if i == 0 { break; } } else { break; }
+                }
+            }
+            cx.op(&format!("{} {} 100", rd, hx(b"\r\n")));
+            cx.op(&format!("{} {} 100", rd, hx(b"\r\n\r\n")));
+            if api == 0 { cx.op("boundary"); cx.op("canproceed"); cx.op("proceed"); } else { cx.op("cboundary"); cx.op("cended"); }
+        }
+    }
+    // (6d) the single-call API after a head that leaves no body to read: an interim 100 (no reader chosen yet),
+    // Content-Length: 0, a 204 — into_body(), then whatever the result allows
+    for head in ["HTTP/1.1 100 Continue\r\n\r\n", "HTTP/1.1 200 OK\r\nContent-Length: 0\r\n\r\n", "HTTP/1.1 204 N\r\n\r\n", "HTTP/1.1 102 P\r\n\r\n", "HTTP/1.1 200 OK\r\nContent-Length: 3\r\n\r\n"] {
+        cx.case("callnobody");
+        if cx.rec.new_call("nobody", "GET HTTP/1.1 http://a.test/p 0") != "ok" { continue; }
+        cx.op("cwrite 4096"); cx.op("cinto");
+        cx.op(&format!("cresp {}", hx(head.as_bytes())));
+        cx.op("cfinished");
+        let b = cx.op("cbody");
+        if b == "state callRecvBody" {
+            cx.op("cended"); cx.op("cboundary");
+            cx.op(&format!("cread {} 100", hx(b"HTTP/1.1 200 OK\r\n\r\nabc")));
+            cx.op("cended");
+        }
+    }
     // (7) hostile Location values, then as_new_flow and the flow it returns: errors are fine, panics are not
     let locs: [&[u8]; 26] = [b"", b" ", b"\t", b"#", b"#frag", b"?", b"?q", b"/", b"//", b"///", b"//b.test", b":", b"://", b"http:", b"http://",
         b"http://[::1", b"http://a.test:99999999999/", b"\\x", b"%", b"%zz", b"..", b"../../../..", b"\xff\xfe", b"http://\xe9.test/", b"a\x00b", b"HTTP://B.TEST:80/../%2e%2e/x?y#z"];
